@@ -62,6 +62,7 @@ struct Hist {
     bool opReadModifyWrite();
     bool opSelfFrame();
     bool opSelfParam();
+    void rebuildAndCompare();
     bool opRenameCopy();
     bool opFailedLoad();
     bool opSecondObject();
